@@ -53,7 +53,17 @@ func c02Profiles(tier string) []Profile {
 	keys := [][]byte{kA, kB}
 	p := &SeqProfile{Name: "durable", Keys: keys, Depth: d, Init: initX, Mon: harness.Monitors{Durable: true},
 		Letters: storeLetters(true, true)}
-	return []Profile{p.Profile(fmt.Sprintf("every history of length <= %d over Set/Delete on x (2 keys x 2 priorities), Set/Delete on y, SetCollection(y) (new and existing), RemoveCollection(y), Evict, Flush, Reopen (close, open the same file, continue); at the end of every history a byte copy of the file is opened in a fresh Store and must equal the model's newest durable state (top of the flush stack, empty if none)", d))}
+	// Flush beside the (single) mutating goroutine: what it persists must be a
+	// state the store really had during the call
+	var conc []Profile
+	for _, sc := range c05More() {
+		if sc.Name == "S8-flushes" {
+			sc2 := *sc
+			sc2.Name = "flush-beside-mutator"
+			conc = append(conc, sc2.Profile(1))
+		}
+	}
+	return append(conc, p.Profile(fmt.Sprintf("every history of length <= %d over Set/Delete on x (2 keys x 2 priorities), Set/Delete on y, SetCollection(y) (new and existing), RemoveCollection(y), Evict, Flush, Reopen (close, open the same file, continue); at the end of every history a byte copy of the file is opened in a fresh Store and must equal the model's newest durable state (top of the flush stack, empty if none)", d)))
 }
 
 func init() {
